@@ -36,7 +36,7 @@ NEIGHBORS = ['10.0.0.2', '10.0.0.3', '10.0.0.4']
 
 
 def counts(tier: str):
-    return (250, 75.0) if tier == 'quick' else (20000, 900.0)
+    return (1000, 75.0) if tier == 'quick' else (20000, 900.0)
 
 
 def generate(rng, tier: str, index: int) -> dict:
